@@ -637,8 +637,18 @@ func init() {
 		ex.callValue(a[1], nil, nil, fr)
 		return nil
 	})
-	reg("time.Now", func(ex *Exec, a []Value, _ *Frame) Value {
-		panic(engineErr("time.Now() reached: wall-clock time is nondeterministic"))
+	// the wall clock: every read returns an arbitrary instant (whole seconds), independent of every other read, so that
+	// two runs of the same operation on the same state see different clocks (C06 self-composition). time.Since and
+	// time.Until execute their real bodies over this Now.
+	reg("time.Now", func(ex *Exec, a []Value, fr *Frame) Value {
+		n := len(ex.nondets)
+		sec := ex.declNondet(fmt.Sprintf("wallclock.sec#%d", n), SInt, big1, new(big.Int).Lsh(big1, 40))
+		ex.noteAssumption("wall clock: each time.Now() (also inside time.Since/Until) returns an arbitrary whole second in [1, 2^40], unrelated to other reads")
+		pkg := ex.prog.ImportedPackage("time")
+		if pkg == nil || pkg.Func("Unix") == nil {
+			panic(engineErr("time.Now() reached and package time is not loaded"))
+		}
+		return ex.call(pkg.Func("Unix"), []Value{Int{sec}, Int{ex.tf.I64(0)}}, 2, nil, fr)
 	})
 }
 
